@@ -60,10 +60,12 @@ def main():
         demo = os.path.join(os.path.dirname(patch), "demo.rs")
         if os.path.exists(demo):
             shutil.copy(demo, os.path.join(repo, "tests", "seeded_demo.rs"))
-            rc, out, dt = sh("cargo test --offline --test seeded_demo 2>&1 | grep -E '^test result|error(\\[|:)' | head -5", cwd=repo, env=env, timeout=1200)
+            ff = os.path.join(os.path.dirname(patch), "demo_flags.txt")
+            flags = open(ff).read().strip() if os.path.exists(ff) else ""
+            rc, out, dt = sh("cargo test --offline " + flags + " --test seeded_demo 2>&1 | grep -E '^test result|error(\\[|:)' | head -5", cwd=repo, env=env, timeout=1200)
             r["demo_fails_with_change"] = ("FAILED" in out) or ("failed" in out and "0 failed" not in out)
             sh("git stash -q", cwd=repo)
-            rc, out, dt = sh("cargo test --offline --test seeded_demo 2>&1 | grep -E '^test result|error(\\[|:)' | head -5", cwd=repo, env=env, timeout=1200)
+            rc, out, dt = sh("cargo test --offline " + flags + " --test seeded_demo 2>&1 | grep -E '^test result|error(\\[|:)' | head -5", cwd=repo, env=env, timeout=1200)
             r["demo_passes_without_change"] = out.strip().startswith("test result: ok")
             sh("git stash pop -q", cwd=repo)
             os.remove(os.path.join(repo, "tests", "seeded_demo.rs"))
